@@ -167,10 +167,22 @@ def spec_origin_to(draw, n, shape, dmax):
 
 @st.composite
 def _tv_fields(draw, n, shape, dmax):
+    d = draw(_tv_fields_raw(n, shape, dmax))
+    # a very short vector is given as a tangent vector proper: a component along the
+    # basepoint 1e7 times its length would leave nothing of its direction after rounding
+    d["ncomp"] = [0.0 if ln < 1e-3 else c for c, ln in zip(d["ncomp"], d["lens"])]
+    return d
+
+
+@st.composite
+def _tv_fields_raw(draw, n, shape, dmax):
     cnt = gen.prod(shape)
     return dict(pts=draw(kpoints(n, cnt, _rmax(dmax))),
                 dirs=[draw(sdir(n)) for _ in range(cnt)],
-                lens=[draw(fl(0.1, 10.0)) for _ in range(cnt)],
+                # the length of a tangent vector says nothing about its direction: ordinary
+                # lengths, and now and then a very short or a very long one
+                lens=[draw(st.one_of(fl(0.1, 10.0), fl(0.1, 10.0), fl(0.1, 10.0),
+                                     st.sampled_from([1e-7, 3e-9, 1e5]))) for _ in range(cnt)],
                 ncomp=[draw(st.one_of(st.just(0.0), fl(-2.0, 2.0))) for _ in range(cnt)],
                 scales=[draw(st.one_of(st.just(1.0), gen.scalars_pm(0.2, 5.0)))
                         for _ in range(cnt)])
